@@ -131,7 +131,7 @@ def run(ctx):
         # C->S: random longer scripts, stable and flaky
         rng = np.random.RandomState(ctx.seed + 20)
         recs = []
-        for rid in range(1, (1500 if ctx.quick else 8000) + 1):
+        for rid in range(1, (1500 if ctx.quick else 40000) + 1):
             L = int(rng.randint(0, 7))
             script = [['good', 'corrupt', 'e404', 'trunc', 'empty'][int(x)] for x in rng.randint(0, 5, size=L)]
             if rng.rand() < 0.5:
@@ -153,13 +153,14 @@ def run(ctx):
              note='candidate invariant CallbacksRestored (not a listed property, not claimed)',
              refuted_by_tlc='CallbacksRestored' in res.violated,
              callbacks_left_observed=leak['observed'], callbacks_left_specified=leak['specified'])
-    for rid, clause in ctx.validate('Trace_Download', 'Trace_Download.cfg', recs):
-        r = recs[rid - 1]
-        if clause == 'reqs' and r['md5s'][0] == r['md5s'][1] == r['md5s'][2]:
-            ctx.note('checksum-requests', 'recorded request sequence differs from the transcription')
-            continue
-        ctx.violation('trace', 'recorded download rejected by the specification: clause %s' % clause,
-                      dict(record=r, clause=clause))
+    for chunk in [recs[a:a + 4000] for a in range(0, len(recs), 4000)]:
+        for rid, clause in ctx.validate('Trace_Download', 'Trace_Download.cfg', chunk):
+            r = recs[rid - 1]
+            if clause == 'reqs' and r['md5s'][0] == r['md5s'][1] == r['md5s'][2]:
+                ctx.note('checksum-requests', 'recorded request sequence differs from the transcription')
+                continue
+            ctx.violation('trace', 'recorded download rejected by the specification: clause %s' % clause,
+                          dict(record=r, clause=clause))
     ctx.sample(recs[0])
 
 
